@@ -56,7 +56,7 @@ class Part:
 
 CATALOGUE = {"inc", "dbl", "neg", "pair", "tsum", "size", "wrap", "add2", "cnt", "poly", "_v", "is_even", "lt3",
              "acc_add", "acc_max", "acc_count", "acc_rs", "key_self", "key_mod2", "key_mod3",
-             "leafsum", "leaves", "prov", "vcanon"}
+             "leafsum", "leaves", "prov", "vcanon", "idx0", "viadict", "todict", "kv", "canon"}
 
 
 def fuzz_part(pid, part_name, seconds_env="VERIF_FUZZ_SECONDS", default_seconds=60):
